@@ -503,7 +503,7 @@ func C11(r *core.Run) {
 	r.Cov["offset_spelling_runs_cli"] = offRuns
 	r.Cov["exhaustive"] = len(deaths) == 0
 	r.Cov["bound"] = map[string]any{"block_kinds": len(blocks), "max_blocks": spec.Max, "regexes": c11Regexes, "offsets": "0..3", "variants": "LF/CRLF x final newline (files of 3 blocks: two of the four variants and two regexes; files of 4 blocks: LF with final newline, one regex)"}
-	r.Cov["rule"] = "all rules files of <= n blocks over the block kinds (comments incl. ones mentioning id:R, blanks, rules with @rx/!@rx/@pm for ids R, R+1 and a 7-digit id having R as prefix, operands containing \"@rx and \" \\, chains of 1-3 links) x line endings x final newline x every target id (+ an absent one) x offsets 0..3 x new regexes; executed on the real updateRegex (in-process); the generator knows the byte span of every operand, so the expected file is the original with exactly that span replaced, or failure with the file untouched; non-trivial = cases with a target"
+	r.Cov["rule"] = "all rules files of <= n blocks over the block kinds (comments incl. ones mentioning id:R, blanks, rules with @rx/!@rx/@pm for ids R, R+1 and a 7-digit id having R as prefix, operands containing \"@rx and \" \\, chains of 1-3 links) x line endings x final newline x every target id (+ an absent one) x offsets 0..3 x new regexes; executed on the real updateRegex (in-process); the generator knows the byte span of every operand, so the expected file is the original with exactly that span replaced, or failure with the file untouched; non-trivial = cases with a target; blocks also cover another rule whose quoted action value mentions the target id, stored operands that start/end with white space, are empty or repeat text of their own line; stage offsets: 35 spellings of the chain offset (leading zeros, values around 2^8, 2^16, 2^32, 2^64) through update --all and update R-chainK with the real CLI"
 	r.Cov["samples"] = []any{c11Case{[]int{1, 4}, true, false, c11R, 0, `a\"@rx b`}, c11Case{[]int{26, 10}, false, true, c11R, 2, "foo"}}
 	r.Assume = append(r.Assume, "files in which the same rule id occurs twice are outside the model")
 }
